@@ -78,6 +78,19 @@ impl Context {
         }
     }
 
+    /// The number of context states.
+    pub fn states_len(&self) -> usize {
+        self.states.len()
+    }
+
+    /// Drops the context states that were pushed after the given number of
+    /// states was recorded (argument collecting states, states of built-ins).
+    pub fn truncate_states(&mut self, len: usize) {
+        while self.states.len() > len && self.states.len() > 1 {
+            self.do_pop();
+        }
+    }
+
     pub fn push_error_handler_context(&mut self) {
         // drop all ArgumentState until we hit the first NormalState
         while self.states.last().unwrap().arguments.is_some() {
